@@ -13,6 +13,10 @@ FIELD_TYPES.update({
     ("PollFuture", "_executor"): OPT(INST("PollExecutor")),
 })
 
+# map / flat_map chains and the combinators (f_and / f_or, f_zip ..., f_apply) learn that an input finished only through a done-callback
+# they registered on it; when the input is one of the library's own futures, that callback is dispatched by the code under contract
+# here.  A registration that is lost, or a dispatch that stops at the first raising callback, leaves their output pending for ever.
+DEPENDENTS = ["C13", "C14", "C15", "C16"]
 FUTURE_CLASSES = ["MapFuture", "FlatMapFuture", "ThrottleFuture", "RetryFuture", "PollFuture", "ProxyFuture"]
 
 
@@ -128,7 +132,7 @@ def _post_cancel(cls_name):
 
 UNITS = [Unit("_Future.cancel[%s]" % c, "common._Future.cancel", ["C02", "C06", "C04", "C13", "C18", "C03"],
               _setup_cancel(c), _post_cancel(c), cfg=_cfg_cancel, self_cls=c) for c in FUTURE_CLASSES]
-UNITS += [Unit("_Future.cancel[%s, nested in own cancel()]" % c, "common._Future.cancel", ["C02", "C04", "C06"],
+UNITS += [Unit("_Future.cancel[%s, nested in own cancel()]" % c, "common._Future.cancel", ["C02", "C04", "C06", "C03", "C13", "C18"],
                _setup_cancel(c, True), _post_cancel(c), cfg=_cfg_cancel, self_cls=c) for c in ("MapFuture", "RetryFuture", "PollFuture")]
 
 
@@ -177,7 +181,9 @@ for c in ("MapFuture", "PollFuture"):
 
 REPLAYS = [("C02", "cancel() never raises", "replay/c02_reentrant_cancel.py"),
            ("C18", "cancel() never raises", "replay/c02_reentrant_cancel.py"),
-           ("C06", "cancel() never raises", "replay/c02_reentrant_cancel.py")]
+           ("C06", "cancel() never raises", "replay/c02_reentrant_cancel.py"),
+           ("C02", "set_exception_info never dispatches callbacks", "replay/c02_poll_failure_on_done_future.py"),
+           ("C18", "set_exception_info never dispatches callbacks", "replay/c02_poll_failure_on_done_future.py")]
 
 
 # ---------------------------------------------------------------------------------------------
@@ -217,7 +223,7 @@ def _post_adc(engine, st, ctx, out):
     calls = user_calls(st)
     apps = [e for e in st.trace if e.kind == "mutate" and e.meth == "append"]
     cl = [("the callback is either stored for the completing thread or invoked right away: exactly one of the two", "PC",
-           z3.BoolVal(len(calls) + len(apps) == 1), ["C02"])]
+           z3.BoolVal(len(calls) + len(apps) == 1), ["C02"] + DEPENDENTS)]
     if calls:
         ev = calls[0]
         cl.append(("a callback added to a done future is called with the future itself, only once it is done, outside the lock", "PC",
@@ -227,7 +233,7 @@ def _post_adc(engine, st, ctx, out):
         reads = [i for i, e in enumerate(st.trace) if e.kind == "state-read" and i < i_app and any(h[3] == "_me_lock" for h in e.held)]
         cl.append(("a stored callback is appended to this future's own list under its lock, after checking `not done` under the SAME lock "
                    "(otherwise completion could run and drop the list in between: the callback would never fire)", "PC",
-                   z3.And(apps[0].args[0] == ctx["fn"].t, z3.BoolVal(any(h[3] == "_me_lock" for h in apps[0].held) and bool(reads))), ["C02", "C03", "C01"]))
+                   z3.And(apps[0].args[0] == ctx["fn"].t, z3.BoolVal(any(h[3] == "_me_lock" for h in apps[0].held) and bool(reads))), ["C02", "C03", "C01"] + DEPENDENTS))
     return cl
 
 
@@ -266,7 +272,7 @@ def _setup_invoke(cls_name):
 
 def _post_invoke(engine, st, ctx, out):
     sid = ctx["sid"]
-    cl = [("a raising done-callback is logged, never propagated", "EX", not isinstance(out, Raise), ["C02", "C18"])]
+    cl = [("a raising done-callback is logged, never propagated", "EX", not isinstance(out, Raise), ["C02", "C18"] + DEPENDENTS)]
     if not isinstance(out, Raise):
         lst = st.get("_me_done_callbacks", sid)
         cl.append(("callbacks are dropped once dispatched (no reference kept)", "PC", st.get("$len", Val.id(lst)) == 0, ["C12", "C02"]))
@@ -315,9 +321,9 @@ def _post_set(kind, tolerant):
 
 
 for c in FUTURE_CLASSES:
-    UNITS.append(Unit("_Future.add_done_callback[%s]" % c, "common._Future.add_done_callback", ["C02", "C04", "C03", "C01"],
+    UNITS.append(Unit("_Future.add_done_callback[%s]" % c, "common._Future.add_done_callback", ["C02", "C04", "C03", "C01"] + DEPENDENTS,
                       _setup_adc(c), _post_adc, cfg=_cfg_cb, self_cls=c))
-UNITS.append(Unit("_Future._me_invoke_callbacks", "common._Future._me_invoke_callbacks", ["C02", "C12", "C18", "C04", "C03", "C01"],
+UNITS.append(Unit("_Future._me_invoke_callbacks", "common._Future._me_invoke_callbacks", ["C02", "C12", "C18", "C04", "C03", "C01"] + DEPENDENTS,
                   _setup_invoke("MapFuture"), _post_invoke, cfg=_cfg_invoke, self_cls="MapFuture"))
 for c, tol in (("MapFuture", False), ("PollFuture", True), ("RetryFuture", False)):
     UNITS.append(Unit("%s.set_result" % c, {"MapFuture": "map.MapFuture.set_result", "PollFuture": "poll.PollFuture.set_result",
@@ -327,6 +333,80 @@ for c, tol in (("MapFuture", False), ("PollFuture", True), ("RetryFuture", False
                                               "RetryFuture": "retry.RetryFuture.set_exception"}[c], ["C02", "C01", "C04", "C18"],
                       _setup_set(c, "exc"), _post_set("exception", False), cfg=_cfg_set, self_cls=c))
 
+
+
+# set_exception_info: the python-2 era setter, still the first thing copy_exception() tries.  On the supported interpreters the stdlib
+# Future has no such method, so the only observable behaviours are: AttributeError from the super() lookup (copy_exception then falls
+# back to set_exception), or - PollFuture - a silent return on a future that is already done.  Either way nothing is set and no
+# callback is dispatched here (a second dispatch would run every done-callback twice).
+def _setup_set_info(cls_name):
+    def setup(engine, st):
+        self = sym_inst(engine, st, cls_name, "self")
+        sid = Val.id(self.t)
+        engine.cfg.own = [sid]
+        v = sym_val(engine, st, "exc", "value")
+        tb = sym_val(engine, st, "any", "traceback")
+        st.assume(st.fstate(sid) != RUNNING)
+        return [self, v, tb], {}, {"self": self, "sid": sid, "v": v, "done0": st.done(sid), "s0": st.fstate(sid)}
+    return setup
+
+
+def _post_set_info(tolerant):
+    def post(engine, st, ctx, out):
+        sid = ctx["sid"]
+        mine = [i for i, e in enumerate(st.trace) if e.kind == "resolve" and z3.is_true(z3.simplify(e.recv == sid))]
+        inv = [i for i, e in enumerate(st.trace) if e.kind == "repo-call" and e.meth.endswith("_me_invoke_callbacks")]
+        cl = [("set_exception_info never dispatches callbacks itself on the supported interpreters: it sets nothing "
+               "(a future that is already done, or AttributeError from the missing stdlib method)", "PC", z3.BoolVal(not inv and not mine), ["C02", "C18"])]
+        if isinstance(out, Raise):
+            cn = engine.class_of_value(st, out.exc)
+            cl.append(("it fails only with AttributeError (no such stdlib method: copy_exception falls back to set_exception) "
+                       "or InvalidStateError", "PC", z3.BoolVal(cn in ("AttributeError", "InvalidStateError")), ["C02", "C18"]))
+            if tolerant:
+                cl.append(("tolerant setter: it does not raise on a future that is already done", "PC", z3.Not(ctx["done0"]), ["C02", "C18"]))
+        else:
+            cl.append(("a silent return happens only in the tolerant setter, on a future that was already done", "PC",
+                       z3.And(z3.BoolVal(tolerant), st.done(sid)), ["C02"]))
+        return cl
+    return post
+
+
+for c, tol in (("MapFuture", False), ("PollFuture", True), ("RetryFuture", False)):
+    UNITS.append(Unit("%s.set_exception_info" % c, {"MapFuture": "map.MapFuture.set_exception_info", "PollFuture": "poll.PollFuture.set_exception_info",
+                                                    "RetryFuture": "retry.RetryFuture.set_exception_info"}[c], ["C02", "C18", "C01"],
+                      _setup_set_info(c), _post_set_info(tol), cfg=_cfg_set, self_cls=c))
+
+
+# ---- running(): a query, under the future's lock ------------------------------------------------------------------------------------
+def _setup_running(cls_name):
+    def setup(engine, st):
+        self = sym_inst(engine, st, cls_name, "self")
+        sid = Val.id(self.t)
+        engine.cfg.own = [sid]
+        st.assume(st.fstate(sid) != RUNNING)
+        return [self], {}, {"self": self, "sid": sid, "done0": st.done(sid)}
+    return setup
+
+
+def _post_running(engine, st, ctx, out):
+    cl = [("running() never raises (no AttributeError on a delegate link cleared meanwhile: the link is read under the future's lock)", "EX",
+           not isinstance(out, Raise), ["C02", "C18"])]
+    if isinstance(out, Raise):
+        return cl
+    ev = [e for e in st.trace if e.kind in ("resolve", "write", "register-cb", "notify") or (e.kind == "call" and e.meth not in ("running", "done"))]
+    cl.append(("running() is a pure query: it changes nothing and asks the underlying future only running() / done()", "PC", z3.BoolVal(not ev), ["C02"]))
+    t = engine.truth(st, out)
+    t = z3.BoolVal(t) if isinstance(t, bool) else t
+    done_at_lock = (st.ghost.get("fut@acquire") or {}).get("done", ctx["done0"])
+    if engine.class_of_value(st, ctx["self"]) != "PollFuture":
+        # (PollFuture.running() answers from the delegate link alone; that a done PollFuture never has a RUNNING delegate is a
+        # whole-history invariant - cancel() succeeds only if the delegate's cancel() did - which this unit does not establish: not claimed)
+        cl.append(("a future that is done is not running", "PC", z3.Implies(done_at_lock, z3.Not(t)), ["C02"]))
+    return cl
+
+
+for c, qn in (("MapFuture", "map.MapFuture.running"), ("PollFuture", "poll.PollFuture.running"), ("RetryFuture", "retry.RetryFuture.running")):
+    UNITS.append(Unit("%s.running" % c, qn, ["C02", "C18"], _setup_running(c), _post_running, cfg=_cfg_cancel, self_cls=c))
 
 
 # ---- cancel() nested inside RetryExecutor._submit_now's hold of the future's lock ------------------------------------------------
@@ -360,3 +440,95 @@ def _post_cancel_in_submit_now(engine, st, ctx, out):
 
 UNITS.append(Unit("_Future.cancel[RetryFuture, nested in _submit_now's hand-over]", "common._Future.cancel", ["C04", "C02", "C06"],
                   _setup_cancel_in_submit_now, _post_cancel_in_submit_now, cfg=_cfg_cancel_in_submit_now, self_cls="RetryFuture"))
+
+
+# ---- common.copy_exception / copy_future_exception: which exception object reaches the target future -----------------------------------
+# The callers run in done-callbacks, i.e. on whatever thread completed the input - possibly inside an `except` block of user code that is
+# handling some unrelated exception at that moment (sys.exc_info() is per thread).  An explicitly given exception must win over it.
+def _cfg_copy_exc():
+    cfg = make_cfg(concurrent=False)
+    cfg.contracts["more_executors._impl.map.MapFuture.set_exception_info"] = RecordCall(may_raise="AttributeError")
+    cfg.contracts["more_executors._impl.map.MapFuture.set_exception"] = RecordCall(may_raise="InvalidStateError")
+    return cfg
+
+
+def _setup_copy_exc(explicit, handling):
+    def setup(engine, st):
+        fut = sym_inst(engine, st, "MapFuture", "future")
+        ctx = {"fut": fut, "explicit": explicit, "handling": handling}
+        if handling:
+            h = sym_val(engine, st, "exc", "being_handled")
+            st.exc_stack.append(h)
+            ctx["handled"] = h
+        args = [fut]
+        if explicit:
+            e = sym_val(engine, st, "exc", "given")
+            args.append(e)
+            ctx["given"] = e
+            if handling:
+                st.assume(e.t != ctx["handled"].t)
+        return args, {}, ctx
+    return setup
+
+
+def _post_copy_exc(engine, st, ctx, out):
+    props = ["C13", "C01", "C14", "C15", "C16", "C18"]
+    sets = [e for e in st.trace if e.kind == "repo-call" and e.meth.endswith(".set_exception")]
+    infos = [e for e in st.trace if e.kind == "repo-call" and e.meth.endswith(".set_exception_info")]
+    cl = [("copy_exception never raises (a lost race with cancel is logged)", "EX", not isinstance(out, Raise), ["C18", "C13"])]
+    want = ctx["given"].t if ctx["explicit"] else (ctx["handled"].t if ctx["handling"] else None)
+    if want is None:
+        return cl
+    cl.append(("the exception handed to the future is %s - whatever else this thread happens to be handling" %
+               ("the one explicitly given" if ctx["explicit"] else "the one being handled"), "PC",
+               z3.And([e.args[1] == want for e in sets + infos] + [z3.BoolVal(len(sets) + len(infos) >= 1 and len(sets) <= 1)]), props))
+    return cl
+
+
+for _ex, _h in ((True, True), (True, False), (False, True)):
+    UNITS.append(Unit("copy_exception[%s, %s]" % ("exception given" if _ex else "no exception given", "while another exception is being handled" if (_h and _ex) else ("inside an except block" if _h else "no exception being handled")),
+                      "common.copy_exception", ["C13", "C01", "C14", "C15", "C16", "C18"], _setup_copy_exc(_ex, _h), _post_copy_exc, cfg=_cfg_copy_exc))
+
+
+# ---- copy_future_exception(f1, f2): f1 may be ANY future, including one of the library's own with a forwarding __getattr__ (f_proxy) ----
+def _cfg_cfe():
+    cfg = make_cfg(concurrent=False)
+    cfg.blocking_allowed = True
+    cfg.contracts["more_executors._impl.common.copy_exception"] = RecordCall()
+    return cfg
+
+
+def _setup_cfe(kind):
+    def setup(engine, st):
+        if kind == "proxy":
+            f1 = sym_inst(engine, st, "ProxyFuture", "f1")
+        elif kind == "map":
+            f1 = sym_inst(engine, st, "MapFuture", "f1")
+        else:
+            f1 = sym_val(engine, st, "future", "f1")
+        fid = Val.id(f1.t)
+        st.assume(z3.And(st.finished(fid), z3.Not(Val.is_none(st.fexc(fid)))))        # called for a failed input only
+        f2 = sym_inst(engine, st, "MapFuture", "f2")
+        st.assume(f2.t != f1.t)
+        return [f1, f2], {}, {"f1": f1, "f2": f2, "exc": st.fexc(fid)}
+    return setup
+
+
+def _post_cfe(engine, st, ctx, out):
+    props = ["C13", "C01", "C14", "C15", "C16", "C17", "C18"]
+    ce = [e for e in st.trace if e.kind == "repo-call" and e.meth.endswith(".copy_exception")]
+    cl = [("copying the failure of a finished future never raises - whatever kind of future it is (a proxy forwards unknown attribute lookups to "
+           "result(), which raises the failure itself)", "EX", not isinstance(out, Raise), props)]
+    if isinstance(out, Raise):
+        return cl
+    ok = len(ce) == 1 and len(ce[0].args) >= 2
+    cl.append(("the target receives the input's own exception object", "PC",
+               z3.And(z3.BoolVal(ok), ce[0].args[0] == ctx["f2"].t if ok else False, ce[0].args[1] == ctx["exc"] if ok else False), props))
+    return cl
+
+
+for _k in ("proxy", "map", "foreign"):
+    UNITS.append(Unit("copy_future_exception[f1: %s]" % {"proxy": "a failed f_proxy future", "map": "a failed library future", "foreign": "a failed future of unknown class"}[_k],
+                      "common.copy_future_exception", ["C13", "C01", "C14", "C15", "C16", "C17", "C18"], _setup_cfe(_k), _post_cfe, cfg=_cfg_cfe))
+
+REPLAYS += [(p, "copy_future_exception[f1: a failed f_proxy future]", "replay/c17_failed_proxy_as_input.py") for p in ("C17", "C13", "C18")]
